@@ -442,8 +442,9 @@ pub struct CellRef {
     pub labels_naming_a_net: u64,
 }
 
+/// Membership of a point in a closed region; `DontCare` = the statement does not fix it (path corners/caps).
 #[derive(Clone, Copy, Debug, PartialEq, Eq)]
-enum In {
+pub enum In {
     Yes,
     No,
     DontCare,
@@ -459,39 +460,36 @@ fn region_contains(g: &Geo, q: P) -> In {
                 In::No
             }
         }
-        Geo::Path(p, w) => {
-            // flush-ended Manhattan path: the union of the segment rectangles is certainly covered; a point
-            // farther than w/2 from every segment certainly is not; the corner squares in between are not
-            // fixed by the statement.
-            let mut all_far = true;
-            for k in 0..p.len().saturating_sub(1) {
-                let (a, b) = (p[k], p[k + 1]);
-                if a.0 != b.0 && a.1 != b.1 {
-                    // diagonal segment: exact distance test only
-                    if !geom::farther_than_half(q, a, b, *w) {
-                        all_far = false;
-                    }
-                    continue;
-                }
-                // 2*|offset across| <= w  and within the segment's extent along
-                let (across2, along_ok) = if a.0 == b.0 {
-                    (2 * (q.0 - a.0).abs(), q.1 >= a.1.min(b.1) && q.1 <= a.1.max(b.1))
-                } else {
-                    (2 * (q.1 - a.1).abs(), q.0 >= a.0.min(b.0) && q.0 <= a.0.max(b.0))
-                };
-                if along_ok && across2 <= *w {
-                    return In::Yes;
-                }
-                if !geom::farther_than_half(q, a, b, *w) {
-                    all_far = false;
-                }
+        Geo::Path(p, w) => path_region(p, *w, q),
+    }
+}
+
+/// Flush-ended path: the union of the (axis-parallel) segment rectangles is certainly covered; a point farther
+/// than w/2 from every segment certainly is not; the corner squares / end caps in between are not fixed by the
+/// statement. Diagonal segments are judged by the exact distance test only.
+pub fn path_region(p: &[P], w: i64, q: P) -> In {
+    let mut all_far = true;
+    for k in 0..p.len().saturating_sub(1) {
+        let (a, b) = (p[k], p[k + 1]);
+        if a.0 != b.0 && a.1 != b.1 {
+            if !geom::farther_than_half(q, a, b, w) {
+                all_far = false;
             }
-            if all_far {
-                In::No
-            } else {
-                In::DontCare
-            }
+            continue;
         }
+        // 2*|offset across| <= w  and within the segment's extent along
+        let (across2, along_ok) = if a.0 == b.0 { (2 * (q.0 - a.0).abs(), q.1 >= a.1.min(b.1) && q.1 <= a.1.max(b.1)) } else { (2 * (q.1 - a.1).abs(), q.0 >= a.0.min(b.0) && q.0 <= a.0.max(b.0)) };
+        if along_ok && across2 <= w {
+            return In::Yes;
+        }
+        if !geom::farther_than_half(q, a, b, w) {
+            all_far = false;
+        }
+    }
+    if all_far {
+        In::No
+    } else {
+        In::DontCare
     }
 }
 
